@@ -1147,7 +1147,7 @@ func main() {
 		"dgamma: all 60 x 31 cells of (alpha on a log grid over [0.01,100]) x (2..32 categories), then random shapes incl. 1 +- ulp: k finite rates >= -1e-12, non-decreasing (1e-9), mean 1 (1e-9), equal to Yang's category means (or normalised medians) computed from the series within 1e-7 k, deterministic",
 		"incgamma: shape a in [0.01,101] x 64 increasing x in [0,500] (uniform, around x=a, around x=1, log grid from 1e-300, random): value in [0,1], non-decreasing (1e-7), equal to the series sum_n e^-x x^(a+n)/Gamma(a+n+1) within 1e-6, 0 at x=0; both algorithm branches and their switch points counted",
 		"rates: GenerateRates in discrete (rate == DiscreteGamma[category], category in range, every category drawn over >= 50k sites, replay), homogeneous (all 1) and continuous (finite >= 0) modes",
-		"every case is non-trivial (a draw, a parameter cell or an x sequence); distinct = (sub-check, parameters, seed)"}, ";; "))
+		"every case is non-trivial (a draw, a parameter cell or an x sequence); distinct = (sub-check, parameters, seed)", cliRule}, ";; "))
 	mon.SetNote("assumptions", strings.Join([]string{
 		"trusted base: math.Lgamma/Exp/Log (series oracle, bisection quantile of the category cut points) and, for the support tests only, gonum's Gamma/Beta CDF; gonum's incomplete gamma is cross-checked against the harness series at every evaluated point (sig harness:series-oracle); gonum's gamma QUANTILE is not used by the oracle (it is inaccurate for shapes near 0.01, which only moves goalign's lowest categories by < 1e-59)",
 		"tolerances: sums 1e-9 relative; rates >= -1e-12 and non-decreasing up to 1e-9 (measured wobble < 1e-14); IncompleteGamma vs series 1e-6 (measured 1e-8), monotone up to 1e-7; rates vs Yang 1e-7 x ncat (measured 2.7e-7 at 31 categories); KS distance 0.0297 for 20000 draws (largest observed 0.014)",
@@ -1159,7 +1159,7 @@ func main() {
 		"the scale given to the gamma sampler by BuildWeightsGamma cancels in the normalisation: a wrong scale there is not observable and not a violation",
 		"which algorithm serves shape exactly 1, or x exactly at the series/continued fraction switch, is not observable as long as the values are right",
 		"continuous GenerateRates draws come from gonum's own stream (golang.org/x/exp/rand), not replayable through math/rand.Seed: range checks and the support test only",
-		"documented categories: Yang (1994) mean variant; the median variant is accepted too"}, ";; "))
+		"documented categories: Yang (1994) mean variant; the median variant is accepted too", cliAssumptions}, ";; "))
 	mon.SetNote("exhaustive_subspaces", "dgamma: all 1860 cells of the 60 point log grid of alpha over [0.01,100] x ncat 2..32 (DiscreteGamma is deterministic); witness: fixed list")
 	mon.Floor("op:BuildWeightsDirichlet", 1000)
 	mon.Floor("op:BuildWeightsGamma", 1000)
@@ -1193,6 +1193,7 @@ func main() {
 	mon.Floor("op:GenerateRates:homogeneous", 100)
 	mon.Floor("op:GenerateRates:continuous", 100)
 	mon.Floor("GenerateRates:all-categories-expected", 100)
+	cliFloors()
 	mon.Main("C20", []mon.Sub{
 		{Name: "witness", Quick: len(witnesses), Thorough: len(witnesses), Run: runWitness},
 		{Name: "weights", Quick: 40000, Thorough: 600000, Run: runWeights},
@@ -1202,5 +1203,6 @@ func main() {
 		{Name: "incgamma", Quick: 40000, Thorough: 800000, Run: runIncGamma},
 		{Name: "incgamma-tail", Quick: len(tailXs) * len(tailAs), Thorough: len(tailXs) * len(tailAs), Run: runIncGammaTail},
 		{Name: "rates", Quick: 12000, Thorough: 250000, Run: runRates},
+		{Name: "cli", Quick: 160, Thorough: 1600, Serial: true, Run: runCli},
 	})
 }
